@@ -201,3 +201,10 @@ def h5(ctx: Ctx) -> None:
     from .c13 import check_registration
 
     check_registration(ctx)
+
+
+@rule("C16.H6", "mechanism shared with C18: the halt length and rate the rule runs with are the configured ones (a block's own keys override what it inherits, whatever their value)", "T4 loop structure (same rule as C18.R1)", floor=5)
+def h6(ctx: Ctx) -> None:
+    from .c18 import r1 as inheritance_rule
+
+    inheritance_rule(ctx)
